@@ -20,7 +20,7 @@ META = {
         "graph invariants read the private pointer lists of CircuitGraphBranch (hook at the mutator, not an API observation)",
     ],
     "floors": {
-        "quick": {"late_add_listings": 2500, "dangling_relation_adds": 8000, "late_add_through_nested_handle": 500, "listings_checked": 4000, "graph_invariant": 30000, "add_to_graph_post": 30000, "causality_pairs": 20000, "blocks_contiguity": 1500, "chain_length": 1000},
+        "quick": {"late_add_listings": 2500, "dangling_relation_adds": 8000, "late_add_through_nested_handle": 500, "listings_checked": 4000, "graph_invariant": 30000, "add_to_graph_post": 30000, "causality_pairs": 20000, "blocks_contiguity": 1500, "chain_length": 5000, "chains_at_depth_limit": 1},
         "thorough": {"listings_checked": 40000, "graph_invariant": 300000, "causality_pairs": 200000, "blocks_contiguity": 15000},
     },
 }
@@ -31,8 +31,11 @@ CLASSES = ["implicit", "explicit", "zero", "nested", "nested_explicit", "allkind
 def plan(tier: str, seed: int) -> List[Dict[str, Any]]:
     total = 3600 if tier == "quick" else 60000
     shards = common.split_shards("gen", total, 15, seed, 2, classes=CLASSES)
-    depth = 1000 if tier == "quick" else 4990
-    shards.append({"kind": "chain", "n": 1, "seed": common.seed_base(seed, 22), "hashseed": 0, "length": depth})
+    # "limit" = the longest chain inside the documented graph depth limit (MAX_GRAPH_DEPTH - 1 operations behind the root),
+    # resolved from the library at run time; quick adds a short chain, thorough the neighbouring lengths as well
+    lengths = [1000, "limit"] if tier == "quick" else [1000, 4990, "limit-1", "limit"]
+    for k, depth in enumerate(lengths):
+        shards.append({"kind": "chain", "n": 1, "seed": common.seed_base(seed, 22 + k), "hashseed": 0, "length": depth})
     return shards
 
 
@@ -243,6 +246,10 @@ def run_chain(shard: Dict[str, Any], acc: Acc):
     """Single relation chain up to the documented depth limit: listing only (time queries on such chains exceed the
     interpreter recursion limit), contracts switched off while building (quadratic), invariant checked once at the end."""
     rng = random.Random(shard["seed"])
+    if isinstance(shard["length"], str):
+        from qce_circuit.structure.graph_traversal.intrf_graph_structure import MAX_GRAPH_DEPTH
+        shard = dict(shard, length=MAX_GRAPH_DEPTH - 1 - (1 if shard["length"] == "limit-1" else 0))
+        acc.count("chains_at_depth_limit")
     prog = chain_program(rng, shard["length"])
     case = {"program": {"class": "chain", "length": shard["length"], "seed": shard["seed"]}}
     contracts.ENABLED["graph"] = False
